@@ -119,18 +119,22 @@ func heavy(c Config, steps []Step) bool {
 	if capPages >= big {
 		return true
 	}
+	// Worst case, not model outcome: a request that the model refuses but a broken wazero
+	// might honour must not make 16 parallel children copy 4 GiB each. Requests beyond
+	// 2^21 pages cannot be allocated at all (they fail fast) and are harmless.
 	m := newModel(c.Min, bound)
 	rr := &runner{m: m}
 	for _, s := range steps {
+		d := uint64(rr.resolveDelta(s.D))
+		if req := uint64(m.size) + d; req >= big && req <= 1<<21 {
+			return true
+		}
 		if s.Op == "L" {
-			for i := uint32(0); i < rr.resolveDelta(s.D); i++ {
+			for i := uint64(0); i < d; i++ {
 				m.grow(1)
 			}
 		} else {
-			m.grow(rr.resolveDelta(s.D))
-		}
-		if m.size >= big {
-			return true
+			m.grow(uint32(d))
 		}
 	}
 	return false
